@@ -4,6 +4,7 @@ import (
 	"context"
 	"errors"
 	"io"
+	"runtime"
 	"sync"
 	"sync/atomic"
 	"time"
@@ -21,6 +22,10 @@ type halfPipe struct {
 	buf    []byte
 	closed bool // writer side closed (EOF after drain) or reader closed
 	total  atomic.Int64
+	// stalled: writers wait (back-pressure) until the stall is lifted or the
+	// pipe is closed; blocked counts the writers currently waiting.
+	stalled bool
+	blocked atomic.Int32
 }
 
 func newHalfPipe() *halfPipe {
@@ -32,6 +37,13 @@ func newHalfPipe() *halfPipe {
 func (h *halfPipe) write(b []byte) (int, error) {
 	h.mu.Lock()
 	defer h.mu.Unlock()
+	if h.stalled && !h.closed {
+		h.blocked.Add(1)
+		for h.stalled && !h.closed {
+			h.cond.Wait()
+		}
+		h.blocked.Add(-1)
+	}
 	if h.closed {
 		return 0, io.ErrClosedPipe
 	}
@@ -55,6 +67,21 @@ func (h *halfPipe) read(b []byte) (int, error) {
 	return n, nil
 }
 
+// stall makes writers wait (on) or lets them continue (off).
+func (h *halfPipe) stall(on bool) {
+	h.mu.Lock()
+	h.stalled = on
+	h.cond.Broadcast()
+	h.mu.Unlock()
+}
+
+// buffered returns the number of written bytes not yet read.
+func (h *halfPipe) buffered() int {
+	h.mu.Lock()
+	defer h.mu.Unlock()
+	return len(h.buf)
+}
+
 func (h *halfPipe) close() {
 	h.mu.Lock()
 	h.closed = true
@@ -69,15 +96,46 @@ type FakeStream struct {
 	ID     int64
 	End    int // 0 = opener end, 1 = acceptor end
 	rd, wr *halfPipe
+	peer   *FakeStream
 	closes atomic.Int32
 	// OnClose, if set, is called on every Close call.
 	OnClose func(s *FakeStream)
+	// Fault selects what Close reports / how it behaves (Close* constants; set
+	// before the stream is handed out, never changed afterwards). Whatever Close
+	// returns, the end IS closed by the call (like a real stream that reports
+	// "already reset" from Close).
+	Fault int
+	// CloseGate, if non-nil, parks the FIRST Close call of this end inside Close
+	// (after it was counted, before the pipes are closed) until the channel is
+	// closed; CloseEntered (buffered) is signalled when that call is parked.
+	CloseGate    chan struct{}
+	CloseEntered chan struct{}
 }
+
+// Behaviour of FakeStream.Close.
+const (
+	CloseOK            = 0 // returns nil
+	CloseErrAlways     = 1 // every Close call returns an error
+	CloseErrFirst      = 2 // the first Close call returns an error, later ones nil
+	CloseErrRemoteGone = 3 // returns an error iff the other end was closed before
+	CloseSlow          = 4 // yields the processor a number of times inside Close, returns nil
+	CloseSlowErr       = 5 // the same, returns an error
+	CloseErrLater      = 6 // the first call returns nil, later ones an error (idempotent-with-error)
+	NumCloseFaults     = 7
+)
+
+// CloseFaultNames names the Close behaviours (evidence / witnesses).
+var CloseFaultNames = [...]string{"close-ok", "close-error-always", "close-error-first-call", "close-error-after-remote-close", "close-slow", "close-slow-error", "close-error-on-repeated-calls"}
+
+// ErrFakeClose is what a faulty FakeStream returns from Close.
+var ErrFakeClose = errors.New("fake stream: close failed (stream already reset)")
 
 // NewFakeStreamPair builds both ends of a stream.
 func NewFakeStreamPair(id int64) (*FakeStream, *FakeStream) {
 	a, b := newHalfPipe(), newHalfPipe()
-	return &FakeStream{ID: id, End: 0, rd: a, wr: b}, &FakeStream{ID: id, End: 1, rd: b, wr: a}
+	x, y := &FakeStream{ID: id, End: 0, rd: a, wr: b}, &FakeStream{ID: id, End: 1, rd: b, wr: a}
+	x.peer, y.peer = y, x
+	return x, y
 }
 
 // Read implements stream.Stream.
@@ -97,14 +155,61 @@ func (s *FakeStream) SetDeadline(t time.Time) error { return nil }
 
 // Close implements stream.Stream.
 func (s *FakeStream) Close() error {
-	s.closes.Add(1)
+	n := s.closes.Add(1)
+	remoteGone := s.peer != nil && s.peer.closes.Load() > 0
+	if n == 1 && s.CloseGate != nil {
+		if s.CloseEntered != nil {
+			select {
+			case s.CloseEntered <- struct{}{}:
+			default:
+			}
+		}
+		<-s.CloseGate
+	}
+	if s.Fault == CloseSlow || s.Fault == CloseSlowErr {
+		for i := 0; i < 8; i++ {
+			runtime.Gosched()
+		}
+	}
 	s.rd.close()
 	s.wr.close()
 	if s.OnClose != nil {
 		s.OnClose(s)
 	}
+	switch s.Fault {
+	case CloseErrAlways, CloseSlowErr:
+		return ErrFakeClose
+	case CloseErrFirst:
+		if n == 1 {
+			return ErrFakeClose
+		}
+	case CloseErrLater:
+		if n > 1 {
+			return ErrFakeClose
+		}
+	case CloseErrRemoteGone:
+		if remoteGone {
+			return ErrFakeClose
+		}
+	}
 	return nil
 }
+
+// StallWrites makes Write calls at this end wait (back-pressure) until the
+// stall is lifted or the stream is closed.
+func (s *FakeStream) StallWrites(on bool) { s.wr.stall(on) }
+
+// WritersBlocked returns the number of Write calls at this end that are
+// currently parked by a stall.
+func (s *FakeStream) WritersBlocked() int { return int(s.wr.blocked.Load()) }
+
+// Unread returns the number of bytes written by the other end that this end
+// has not read yet.
+func (s *FakeStream) Unread() int { return s.rd.buffered() }
+
+// Unconsumed returns the number of bytes written at this end that the other
+// end has not read yet.
+func (s *FakeStream) Unconsumed() int { return s.wr.buffered() }
 
 // Closes returns how often Close was called on this end.
 func (s *FakeStream) Closes() int { return int(s.closes.Load()) }
